@@ -339,15 +339,23 @@ void _vnacal_teardown_parameter_collection(vnacal_t *vcp)
 {
     vnacal_parameter_collection_t *vprmcp = &vcp->vc_parameter_collection;
 
+    /*
+     * Release the collection's own reference on every parameter not
+     * yet deleted by the user.  A parameter serving as the "other" of
+     * an unknown or correlated parameter stays until that parameter
+     * lets go of it, which can be later in this loop if it sits at
+     * a lower index, so test for an empty table only afterwards.
+     */
     for (int i = vprmcp->vprmc_allocation - 1; i >= 0; --i) {
 	vnacal_parameter_t *vpmrp = vprmcp->vprmc_vector[i];
 
-	if (vpmrp != NULL) {
-	    assert(!vpmrp->vpmr_deleted);
+	if (vpmrp != NULL && !vpmrp->vpmr_deleted) {
 	    vpmrp->vpmr_deleted = true;
 	    _vnacal_release_parameter(vpmrp);
-	    assert(vprmcp->vprmc_vector[i] == NULL);
 	}
+    }
+    for (int i = 0; i < vprmcp->vprmc_allocation; ++i) {
+	assert(vprmcp->vprmc_vector[i] == NULL);
     }
     free((void *)vprmcp->vprmc_vector);
     (void)memset((void *)&vcp->vc_parameter_collection, 0,
